@@ -1,6 +1,191 @@
 import DaskModel.DriverLib
+import DaskModel.Model.Cumulative
+import DaskModel.Model.Overlap
 open Dask
 
-def table : List (String × Handler) := []
+/-! Line-protocol handlers of group dfrows (C36 C37 C42 C43 C46). Cells: an integer or `none`. -/
+
+namespace DfRows
+
+def toCell? : SExp → Option (Option Int)
+  | .sym "none" => some none
+  | .int i => some (some i)
+  | _ => none
+
+def toCells? (e : SExp) : Option (List (Option Int)) := do (← e.toList?).mapM toCell?
+def toCellss? (e : SExp) : Option (List (List (Option Int))) := do (← e.toList?).mapM toCells?
+
+def ofCell : Option Int → SExp
+  | none => .sym "none"
+  | some i => .int i
+def ofCells (l : List (Option Int)) : SExp := .list (l.map ofCell)
+def ofCellss (l : List (List (Option Int))) : SExp := .list (l.map ofCells)
+
+/-! ### C46 -/
+
+def toOp? : SExp → Option Cumulative.Op
+  | .sym "sum" => some .sum | .sym "prod" => some .prod
+  | .sym "max" => some .max | .sym "min" => some .min
+  | _ => none
+
+/-- `(cum <op> <skipna> (parts…))` ↦ partitions of the lowered Series cumulative -/
+def hCum : Handler := handler fun args =>
+  match args with
+  | [op, sk, parts] => do
+    pure (ofCellss (Cumulative.daskCum (← toOp? op).app (← sk.toBool?) (← toCellss? parts)))
+  | _ => none
+
+/-- `(cumdf <op> <skipna> (parts…))` ↦ one column of the DataFrame path (non-empty partitions) -/
+def hCumDF : Handler := handler fun args =>
+  match args with
+  | [op, sk, parts] => do
+    pure (ofCellss (Cumulative.daskCumDF (← toOp? op).app (← sk.toBool?) (← toCellss? parts)))
+  | _ => none
+
+/-- `(cumspec <op> <skipna> (cells…))` ↦ pandas on the whole series -/
+def hCumSpec : Handler := handler fun args =>
+  match args with
+  | [op, sk, xs] => do
+    pure (ofCells (Cumulative.pandasCum (← toOp? op).app (← sk.toBool?) (← toCells? xs)))
+  | _ => none
+
+/-- `(takelast <skipna> (cells…))` ↦ `pynone` | `(val c)` -/
+def hTakeLast : Handler := handler fun args =>
+  match args with
+  | [sk, xs] => do
+    match Cumulative.takeLast (← sk.toBool?) (← toCells? xs) with
+    | none => pure (.sym "pynone")
+    | some c => pure (.list [.sym "val", ofCell c])
+  | _ => none
+
+/-- `(aggss <op> x y)` with x,y ∈ `pynone` | cell ↦ same encoding -/
+def toPy? : SExp → Option (Option (Option Int))
+  | .sym "pynone" => some none
+  | e => (toCell? e).map some
+def ofPy : Option (Option Int) → SExp
+  | none => .sym "pynone"
+  | some c => ofCell c
+def hAggSS : Handler := handler fun args =>
+  match args with
+  | [op, x, y] => do pure (ofPy (Cumulative.aggSS (← toOp? op).app (← toPy? x) (← toPy? y)))
+  | _ => none
+def hAggVS : Handler := handler fun args =>
+  match args with
+  | [op, x, y] => do pure (ofCells (Cumulative.aggVS (← toOp? op).app (← toCells? x) (← toPy? y)))
+  | _ => none
+
+/-- the row functions: `(shift p)`, `(diff p)`, `(ffill L|none)`, `(bfill L|none)`,
+    `(rollsum w m center)`, `(rollcount w m center)`, `(rollmax w m center)`;
+    result: `(before, after, function on a block)` as dask derives them -/
+def rowFn? : SExp → Option (Nat × Nat × (List (Option Int) → List (Option Int)))
+  | .list [.sym "shift", .int p] =>
+    let (b, a) := Overlap.shiftBeforeAfter p
+    some (b, a, if p > 0 then Overlap.winFn b a (Overlap.gShiftBack b)
+                else if p < 0 then Overlap.winFn b a (Overlap.gShiftFwd a) else id)
+  | .list [.sym "diff", .int p] =>
+    let (b, a) := Overlap.shiftBeforeAfter p
+    some (b, a, if p > 0 then Overlap.winFn b a (Overlap.gDiffBack b)
+                else if p < 0 then Overlap.winFn b a (Overlap.gDiffFwd a)
+                else fun xs => xs.map (fun c => Overlap.cellSub c c))
+  | .list [.sym "ffill", l] => do
+    let lim ← (l.toOptInt?)
+    let lim := lim.map Int.toNat
+    let (b, a) := Overlap.ffillBeforeAfter lim
+    -- with `limit=None` dask runs a partition-local unlimited ffill first (FillnaCheck); see `ffillu`
+    some (b, a, Overlap.winFn b a (Overlap.gFfill b))
+  | .list [.sym "bfill", l] => do
+    let lim ← (l.toOptInt?)
+    let lim := lim.map Int.toNat
+    let (b, a) := Overlap.bfillBeforeAfter lim
+    some (b, a, Overlap.winFn b a (Overlap.gBfill a))
+  | .list [.sym how, .int w, .int m, c] => do
+    let center ← c.toBool?
+    let (b, a) := Overlap.rollingBeforeAfter w.toNat center
+    let g ← match how with
+      | "rollsum" => some (Overlap.gRollSum m.toNat)
+      | "rollcount" => some (Overlap.gRollCount m.toNat)
+      | "rollmax" => some (Overlap.gRollMax m.toNat)
+      | _ => none
+    some (b, a, Overlap.winFn b a g)
+  | _ => none
+
+/-- `(overlap <fn> (parts…))` ↦ `(ok before after (parts…))` | `(raised before after)` -/
+def hOverlap : Handler := handler fun args =>
+  match args with
+  | [fn, parts] => do
+    let (b, a, f) ← rowFn? fn
+    let parts ← toCellss? parts
+    match Overlap.mapOverlap f b a parts with
+    | some out => pure (.list [.sym "ok", .int b, .int a, ofCellss out])
+    | none => pure (.list [.sym "raised", .int b, .int a])
+  | _ => none
+
+/-- `(fillu ffill|bfill (parts…))` ↦ `(ok (parts…))` | `(raised)`; unlimited fill as lowered by dask -/
+def hFillU : Handler := handler fun args =>
+  match args with
+  | [.sym dir, parts] => do
+    let parts ← toCellss? parts
+    let r ← match dir with
+      | "ffill" => some (Overlap.daskFfillUnlimited parts)
+      | "bfill" => some (Overlap.daskBfillUnlimited parts)
+      | _ => none
+    match r with
+    | some out => pure (.list [.sym "ok", ofCellss out])
+    | none => pure (.list [.sym "raised"])
+  | _ => none
+
+/-- `(fillspec ffill|bfill (cells…))` -/
+def hFillSpec : Handler := handler fun args =>
+  match args with
+  | [.sym dir, xs] => do
+    let xs ← toCells? xs
+    match dir with
+    | "ffill" => pure (ofCells (Overlap.ffillAll none xs))
+    | "bfill" => pure (ofCells (Overlap.bfillAll xs))
+    | _ => none
+  | _ => none
+
+/-- `(winspec <fn> (cells…))` ↦ the function on the whole series -/
+def hWinSpec : Handler := handler fun args =>
+  match args with
+  | [fn, xs] => do
+    let (_, _, f) ← rowFn? fn
+    pure (ofCells (f (← toCells? xs)))
+  | _ => none
+
+/-- `(sideok b a (lens…))` -/
+def hSideOK : Handler := handler fun args =>
+  match args with
+  | [b, a, lens] => do
+    let lens ← lens.toNats?
+    pure (SExp.ofBool (Overlap.sideOK (← b.toNat?) (← a.toNat?) (lens.map (fun n => List.replicate n ()))))
+  | _ => none
+
+/-- `(combined b a prev cur next)` with prev/next ∈ `pynone` | (cells…) ↦ `(ok (cells…) pl nl)` | `(raised)` -/
+def toOptCells? : SExp → Option (Option (List (Option Int)))
+  | .sym "pynone" => some none
+  | e => (toCells? e).map some
+def hCombined : Handler := handler fun args =>
+  match args with
+  | [b, a, pv, cur, nx] => do
+    match Overlap.combinedParts (← b.toNat?) (← a.toNat?) (← toOptCells? pv) (← toCells? cur) (← toOptCells? nx) with
+    | none => pure (.list [.sym "raised"])
+    | some (c, pl, nl) => pure (.list [.sym "ok", ofCells c, SExp.ofOptNat pl, SExp.ofOptNat nl])
+  | _ => none
+
+/-- `(rollblockwise w nparts)` -/
+def hRollBlockwise : Handler := handler fun args =>
+  match args with
+  | [w, n] => do pure (SExp.ofBool (Overlap.rollingIsBlockwise (← w.toNat?) (← n.toNat?)))
+  | _ => none
+
+end DfRows
+
+open DfRows in
+def table : List (String × Handler) := [
+  ("cum", hCum), ("cumdf", hCumDF), ("cumspec", hCumSpec), ("takelast", hTakeLast),
+  ("aggss", hAggSS), ("aggvs", hAggVS),
+  ("overlap", hOverlap), ("winspec", hWinSpec), ("sideok", hSideOK), ("combined", hCombined),
+  ("rollblockwise", hRollBlockwise), ("fillu", hFillU), ("fillspec", hFillSpec)]
 
 def main : IO Unit := runDriver table
